@@ -77,6 +77,21 @@ pub fn same_outcome(exp: &OutT, from: &StateT, obs: &RespT, post: &StateT) -> Re
 /// Informational conformance beyond what the properties state: does the implementation emit its
 /// messages in the order the specification lists them (the code's call-site order), and does it
 /// emit attributes the specification does not model?  Counted, never judged.
+/// refusal-reason conformance (informational): None = not applicable / conforms, Some(text) = differs
+pub fn error_class(kind: &str, exp: &OutT, obs: &RespT) -> Option<String> {
+    if exp.resp.ok || obs.ok {
+        return None;
+    }
+    let guard = exp.resp.why.first()?;
+    let alts = crate::errors::expected(kind, guard)?;
+    let text = obs.why.first().cloned().unwrap_or_default();
+    if alts.iter().any(|a| text.contains(a)) {
+        None
+    } else {
+        Some(format!("{} / {} -> {}", kind, guard, text))
+    }
+}
+
 pub fn informational(exp: &OutT, obs: &RespT) -> (bool, Vec<String>) {
     let order_same = exp.resp.msgs == obs.msgs;
     let extra: Vec<String> = obs
@@ -105,6 +120,7 @@ struct Stats {
     followups: AtomicU64,
     info_order_differs: AtomicU64,
     info_extra_attrs: AtomicU64,
+    info_error_class: AtomicU64,
 }
 
 /// the post-state of the first admissible outcome (what the specification expected)
@@ -190,18 +206,19 @@ fn unescape_line(line: &str) -> Option<String> {
     serde_json::from_str::<String>(line).ok()
 }
 
-pub fn replay_edge(w: &mut World, e: &EdgeT) -> (RespT, StateT, Result<(), String>, bool, (bool, Vec<String>)) {
+pub fn replay_edge(w: &mut World, e: &EdgeT) -> (RespT, StateT, Result<(), String>, bool, (bool, Vec<String>, Option<String>)) {
     w.set_env(&e.env);
     w.inject(&e.from);
     let rt_ok = w.project() == e.from;
     let resp = w.call(&e.req);
     let post = w.project();
     let mut verdict = Err("no admissible outcome listed".to_string());
-    let mut info = (true, vec![]);
+    let mut info = (true, vec![], None);
     for o in &e.outs {
         verdict = same_outcome(o, &e.from, &resp, &post);
         if verdict.is_ok() {
-            info = informational(o, &resp);
+            let (a, b) = informational(o, &resp);
+            info = (a, b, error_class(e.req.kind(), o, &resp));
             break;
         }
     }
@@ -222,6 +239,7 @@ pub fn main(args: &[String]) -> i32 {
     let kinds: Arc<Mutex<BTreeMap<String, (u64, u64)>>> = Arc::new(Mutex::new(BTreeMap::new()));
     let samples: Arc<Mutex<Vec<serde_json::Value>>> = Arc::new(Mutex::new(vec![]));
     let other_lines: Arc<Mutex<Vec<String>>> = Arc::new(Mutex::new(vec![]));
+    let err_samples_all: Arc<Mutex<Vec<String>>> = Arc::new(Mutex::new(vec![]));
 
     let (tx, rx) = sync_channel::<Vec<String>>(64);
     let rx = Arc::new(Mutex::new(rx));
@@ -233,6 +251,7 @@ pub fn main(args: &[String]) -> i32 {
         let stats = stats.clone();
         let kinds = kinds.clone();
         let samples = samples.clone();
+        let err_samples = err_samples_all.clone();
         handles.push(std::thread::spawn(move || {
             let mut w = World::new();
             let mut local: BTreeMap<String, (u64, u64)> = BTreeMap::new();
@@ -261,6 +280,13 @@ pub fn main(args: &[String]) -> i32 {
                     }
                     if info.1.iter().any(|k| k != "class_full") {
                         stats.info_extra_attrs.fetch_add(1, Ordering::Relaxed);
+                    }
+                    if let Some(t) = &info.2 {
+                        stats.info_error_class.fetch_add(1, Ordering::Relaxed);
+                        let mut g = err_samples.lock().unwrap();
+                        if g.len() < 12 && !g.iter().any(|x: &String| x.split(" -> ").next() == t.split(" -> ").next()) {
+                            g.push(t.clone());
+                        }
                     }
                     if !rt_ok {
                         stats.roundtrip_failures.fetch_add(1, Ordering::Relaxed);
@@ -365,6 +391,8 @@ pub fn main(args: &[String]) -> i32 {
         "followups": stats.followups.load(Ordering::Relaxed),
         "info_message_order_differs": stats.info_order_differs.load(Ordering::Relaxed),
         "info_unmodelled_attributes": stats.info_extra_attrs.load(Ordering::Relaxed),
+        "info_error_class_differs": stats.info_error_class.load(Ordering::Relaxed),
+        "info_error_class_samples": *err_samples_all.lock().unwrap(),
         "by_kind": kinds.iter().map(|(k, (a, r))| (k.clone(), serde_json::json!({"accepted": a, "refused": r}))).collect::<BTreeMap<_, _>>(),
         "samples": *samples.lock().unwrap(),
         "tlc_output": *other_lines.lock().unwrap(),
